@@ -10,7 +10,7 @@ import math
 import pickle
 import random
 from concurrent.futures import ThreadPoolExecutor
-from typing import Any, Dict, Iterator, List, Optional
+from typing import Any, Dict, Iterator, List, Optional, Union
 
 import pydantic
 
@@ -143,6 +143,7 @@ RowS = _make_row(str)
 ANNOTS: Dict[str, Any] = {
     "PayloadI": PayloadI, "PayloadS": PayloadS, "PayloadL": PayloadL, "RowI": RowI, "RowS": RowS,
     "List[PayloadI]": List[PayloadI], "List[PayloadS]": List[PayloadS],
+    "Union[bool, int, float]": Union[bool, int, float], "Union[int, str]": Union[int, str],
     "none": None, "Any": Any, "int": int, "str": str, "float": float, "bool": bool,
     "List[int]": List[int], "Optional[int]": Optional[int], "Dict[str, int]": Dict[str, int],
     "Model": Model, "Inner": Inner, "DC": DC, "DC2": DC2, "Optional[Model]": Optional[Model],
@@ -166,7 +167,7 @@ def gen_json_tree(rng: random.Random, depth: int = 0) -> Any:
 def enc(v: Any) -> Any:
     """Instances -> tagged JSON so that specs stay plain data."""
     if isinstance(v, pydantic.BaseModel):
-        return {"$inst": type(v).__name__, "kw": {k: enc(getattr(v, k)) for k in type(v).model_fields}}
+        return {"$inst": type(v).__name__, "kw": {k: enc(getattr(v, k)) for k in type(v).model_fields if k in v.model_fields_set}}
     if dataclasses.is_dataclass(v) and not isinstance(v, type):
         return {"$inst": type(v).__name__, "kw": {f.name: enc(getattr(v, f.name)) for f in dataclasses.fields(v)}}
     if isinstance(v, list):
@@ -237,6 +238,8 @@ def _gen_value_for(rng: random.Random, ann: str) -> Any:
         return rng.choice([{"id": "7"}, {"id": 7}, {"id": "x", "note": "k"}, {"note": "only"}, []])
     if ann in ("List[PayloadI]", "List[PayloadS]"):
         return rng.choice([[], [{"value": "5"}], [{"value": 5}, {"value": "6"}], [{"value": "x"}], "no"])
+    if ann in ("Union[bool, int, float]", "Union[int, str]"):
+        return rng.choice([True, False, 1, 0, 1.0, 0.0, "1", "x", 2, 2.0, -0.0])
     if ann == "List[Model]":
         return rng.choice([[], [{"x": 1, "name": "n", "tags": []}], [{"x": 1}, {"x": "2"}], [{"x": "bad"}], [5], "x"])
     raise KeyError(ann)
@@ -280,6 +283,10 @@ def gen_c08_case(rng: random.Random) -> Dict[str, Any]:
     npos = rng.randint(0, len(positional_ok))
     supplied = {}
     for p in params:
+        if p.get("dep") in ("dep", "dep_ann") and rng.random() < 0.15:
+            # the caller binds a value to a parameter that has a dependency default: the sent value must win
+            supplied[p["name"]] = {"v": rng.choice(["sent-value", "", "0", "dep-value-not"]), "pos": False}
+            continue
         if p.get("dep"):
             continue
         pos_idx = positional_ok.index(p["name"]) if p["name"] in positional_ok else None
@@ -300,7 +307,7 @@ def _dep_plain() -> str:
 
 
 def build_fn(case: Dict[str, Any]) -> Any:
-    ns: Dict[str, Any] = {"Any": Any, "List": List, "Optional": Optional, "Dict": Dict, "Model": Model,
+    ns: Dict[str, Any] = {"Any": Any, "List": List, "Optional": Optional, "Dict": Dict, "Union": Union, "Model": Model,
                           "Inner": Inner, "DC": DC, "DC2": DC2, "Context": Context, "PayloadI": PayloadI,
                           "PayloadS": PayloadS, "PayloadL": PayloadL, "RowI": RowI, "RowS": RowS, "TaskiqDepends": TaskiqDepends,
                           "_REC": _REC, "_dep_plain": _dep_plain, "int": int, "str": str, "float": float, "bool": bool}
@@ -315,8 +322,10 @@ def build_fn(case: Dict[str, Any]) -> Any:
             parts.append(f"{p['name']}: Context = TaskiqDepends()")
         elif p.get("dep") == "dep":
             parts.append(f"{p['name']}=TaskiqDepends(_dep_plain)")
+            names.append(p["name"])
         elif p.get("dep") == "dep_ann":
             parts.append(f"{p['name']}: str = TaskiqDepends(_dep_plain)")
+            names.append(p["name"])
         else:
             a = "" if p["ann"] == "none" else f": {p['ann']}"
             d = " = 'DEFAULT'" if p["default"] else ""
@@ -407,10 +416,13 @@ def run_c08(case: Dict[str, Any]) -> "tuple[List[Violation], Dict[str, Any]]":
     got = _REC[0]
     obs["received"] = jsonable({k: prepared(x) for k, x in got.items()})
     for p in case["params"]:
-        if p.get("dep"):
+        if p.get("dep") == "ctx":
             continue
         s = case["supplied"].get(p["name"])
-        if s is None:
+        if p.get("dep"):
+            # dependency parameter: the resolved dependency unless the caller sent a value
+            want = "dep-value" if s is None else expected_value("str" if p["dep"] == "dep_ann" else "none", dec(s["v"]), case["fmt"], case["validate"])
+        elif s is None:
             want = "DEFAULT"
         else:
             want = expected_value(p["ann"], dec(s["v"]), case["fmt"], case["validate"])
@@ -418,9 +430,12 @@ def run_c08(case: Dict[str, Any]) -> "tuple[List[Violation], Dict[str, Any]]":
         if not strict_eq(g, want):
             pos_names = [q["name"] for q in case["params"] if case["supplied"].get(q["name"], {}).get("pos")]
             kind = "arg-mismatch"
-            if case["validate"] and pos_names and any(q.get("ann") == "none" for q in case["params"] if q["name"] in pos_names):
-                kind = "annotation-applied-to-wrong-positional"
-            v.append(Violation(kind, f"param {p['name']} ({p['ann']}) received {g!r} ({type(g).__name__}), expected {want!r} ({type(want).__name__}); signature {src.splitlines()[0]}; args={args!r} kwargs={kwargs!r} validate={case['validate']} fmt={case['fmt']}"))
+            before = case["params"][: case["params"].index(p)]
+            if case["validate"] and p["name"] in pos_names and any(
+                q.get("ann") == "none" and q["name"] in pos_names for q in before
+            ):
+                kind = "annotation-applied-to-wrong-positional"  # the F1 mechanism
+            v.append(Violation(kind, f"param {p['name']} ({p.get('ann') or p.get('dep')}) received {g!r} ({type(g).__name__}), expected {want!r} ({type(want).__name__}); signature {src.splitlines()[0]}; args={args!r} kwargs={kwargs!r} validate={case['validate']} fmt={case['fmt']}"))
     return v, obs
 
 
@@ -459,6 +474,7 @@ class C08(Check):
         cr.violations += v
         sup = spec["supplied"]
         ann = [p for p in spec["params"] if not p.get("dep") and p["name"] in sup and p["ann"] not in ("none", "Any")]
+        cr.counters["dependency_params_supplied"] += sum(1 for p in spec["params"] if p.get("dep") and p["name"] in sup)
         cr.counters["params_checked"] += len(sup)
         cr.counters["annotated_converted"] += len(ann)
         cr.counters["fmt_" + spec["fmt"]] += 1
